@@ -154,7 +154,8 @@ def validate(data, password, model, viol, obs, tag):
     obs["ref_notes"] = obs.get("ref_notes", 0) + len(arc.notes)
     for nt in arc.notes:
         if nt.startswith("trailing"):
-            obs["note_trailing_bytes"] = obs.get("note_trailing_bytes", 0) + 1
+            # signature header, packed streams, header: nothing else belongs to the file py7zr wrote
+            viol.append({"key": "trailing-bytes-after-header", "what": "%s: %s (stale bytes of an earlier, longer header or file)" % (tag, nt)})
 
 
 def run_case(case):
